@@ -13,7 +13,7 @@
         ts = [TMatch 3 1; TMatch 3 2]   (toks_ok 32768 1 ts holds: 1 <= 1, then 2 <= 1 + 3)
         litlens = 256 zeros, 1, 1, 28 zeros;  distlens = 1, 1, 28 zeros
       symbols gives BStop _ _ Corrupt instead of BEnd.
-      Proved instead: symbols_ok_partial, the same statement with the extra hypothesis
+      Proved instead: symbols_ok_partial, the same statement with the extra premise
         oavail st <= N.of_nat (length (rout st))
       (implied by the invariant oavail st = N.of_nat (length (rout st)) that Spec.inflate
       maintains; symbols_ok_partial_eq is the instance with that equality).
@@ -22,7 +22,7 @@
         olen (apply_toks ts st) + (oavail st - olen st) = oavail (apply_toks ts st)
       uses truncated subtraction and is false when olen st > oavail st:
         ts = [], st = mkost [] 1 0 0 []   gives 1 + (0 - 1) = 1 <> 0.
-      Proved instead: apply_toks_expand_partial, the same statement with the extra hypothesis
+      Proved instead: apply_toks_expand_partial, the same statement with the extra premise
         olen st <= oavail st.                                                              *)
 From Verif Require Import CodecSpec HuffmanProofs.
 From Coq Require Import Lia ZifyBool ZifyNat ZifyN.
